@@ -219,6 +219,19 @@ register('C14',
          'Coq proof about the generator + fail-closed parser of the generated PL/pgSQL + vm_compute structural comparison and execution of the parsed program',
          'DESIGN.md §7 C14')
 
+register('C18',
+         'Coq theorems: the pointer computed for an activity (in-flight version of the current transaction, else the maximal stored id of '
+         'the entity) is the transaction id of the newest version at or before the current transaction, given that the current id is at '
+         'least every stored id - which is proved for every reachable state; an object that is neither new nor deleted nor changed (an '
+         'old activity) does not make the session count as modified, so no transaction record is created. Histories that keep activity '
+         'objects referenced across later transactions in which the entity is updated, deleted or untouched, and transactions touching '
+         'only non-versioned classes, are run on the real code; after every flush / commit: first flush = current transaction and '
+         'pointers = newest version at or before it, committed activities never change, no record without a versioned change.',
+         COMMON_NOTE + 'Pending activities enter the model as objects of a pseudo class; the activity rows themselves are compared on the '
+         'snapshots only. The property\'s premise (activity added after its object\'s changes were flushed) is encoded in the predicate.',
+         'Coq proof (max/as-of lemma + reachable-state invariant) + vm_compute replay of recorded traces',
+         'DESIGN.md §7 C18')
+
 ALL = ['C%02d' % i for i in range(1, 21)]
 
 
